@@ -88,7 +88,7 @@ let () =
           e_cfg = { g_issuer = (if i < 0 then None else Some (nat_of_int i)); g_subj = O; g_vis = O; g_blind = O; g_kalg = EC;
                     g_salg = EC; g_valid = true; g_until_future = true; g_builds = true };
           e_cfg_mtime = O; e_file = None }) issuers in
-      let m = is_consistent ents && dup = "0" in
+      let m = is_consistent ents && dup = "0" in   (* dup 1: alias collision, 2: artifact path collision; both must be refused *)
       let fuel = nat_of_int (List.length ents + 1) in
       let sp = List.for_all (fun e -> reachb fuel ents e.e_alias) ents && dup = "0" in
       if m <> (opened = "1") || sp <> (opened = "1") then mismatch line (Printf.sprintf "model=%b spec=%b" m sp)
